@@ -49,6 +49,9 @@ CLAIMED = {
  "C16": dict(technique="property-based testing with a full per-document product over format x destination kind x source kind x detection mode; strict content oracle",
              text="For every generated document (intersection of the JSON/XML/RDF spaces, non-ASCII content) all 5 format variants are written to 4 destination kinds and compared, then read back from 5 source kinds with an explicit format and through prov.read from 3 source kinds with and without a format; every cell must reproduce the document's strict content (RDF: the unified set). Cell counters in the evidence show that no cell is empty.",
              note="Trusted: canon(); lxml C14N for XML text equality; rdflib isomorphism for RDF texts that differ only in blank-node labels. Plain file names only (C17 covers hostile names and faults).", ref="4 C16"),
+ "C17": dict(category="fault_enumeration", technique="fault injection enumerated per generated case: every write-family and rename-family syscall of the call is failed once with strace -e inject, in a child process; exact file-name and all-or-nothing oracle on the directory listing and file bytes",
+             text="The harness owns the fault schedule: for each case (format x file-name class with URL syntax x pre-existing destination x temp-directory placement x document size) a fault-free traced run takes the census of the syscalls that touch the scratch directories and then every one of them is failed once (ENOSPC/EIO/EACCES), plus a serialisation that raises half way. Fault-free the work directory must gain exactly the named file with the bytes of serialize(BytesIO); under a fault the destination must be byte-identical to its old content (or absent) when the exception propagates, or complete when the call returns.",
+             note="Trusted: strace 6.1 syscall injection (ptrace), the child's exit-status protocol. Within a case the fault points are exhaustive; across cases the quick tier samples the product by VERIF_SEED and the thorough tier enumerates it (288 cases).", ref="4 C17"),
 }
 PENDING_REASON = "check not built yet in this round (design in DESIGN.md section 4); not claimed until the check exists and is quiet on the unchanged tree"
 checks = []
